@@ -8,7 +8,7 @@ CHECKS = {
    text="Every generated expression is computed by the real cubed code on real executors and its result compared element-wise with an independent NumPy evaluation; held = no disagreement on the executions listed in the evidence. Exploration is the right level: the input space is unbounded, so reach comes from generator diversity (shapes, chunkings, dtypes, compositions, executors), not enumeration.",
    note="Trusts NumPy as reference and the harness's own recipe interpreters; geometries beyond the generator's bounds and executors not installed (dask, lithops, ...) are not observed.", ref="3/C01"),
  "C02": dict(level="exploration", technique="runtime monitoring: differential oracle (same recipe computed unoptimised vs under each optimiser setting, bit-exact) + read-back of requested arrays from storage",
-   text="Each generated DAG is executed by the real code unoptimised and under default/multiple-input/legacy/fuse-all/fuse-only optimisers with random always/never-fuse subsets; requested arrays must be bit-identical and present in storage. Held = no difference on the (recipe, optimiser) pairs listed.",
+   text="Each generated DAG is executed by the real code unoptimised and under default/multiple-input/legacy/fuse-all/fuse-only optimisers with random always/never-fuse subsets; requested arrays must be bit-identical and present in storage. A third of the recipes also save a requested array with a lazy store/to_zarr into a path or an existing array of equal/finer/coarser/unrelated chunking and request a consumer of the stored array; the target is read back with plain zarr. Held = no difference on the (recipe, optimiser) pairs listed.",
    note="Reference is cubed's own unoptimised run (a common-mode error in both is C01's business). Memory refusals under fusion-forcing optimisers are allowed by the property and not judged.", ref="3/C02"),
  "C03": dict(level="exploration", technique="runtime monitoring of allocations: tracemalloc around every task (one at a time under the harness executor, second run of each plan, excess re-measured up to 5 times), phase-resolved by wrapping zarr.Array.__getitem__/__setitem__, judged against the finalized plan's projected_mem",
    text="A table of 42 programs covering every operation family at data-dominated chunk sizes, five geometries, three dtypes, fused/unfused, compressor None/default: every task's traced peak must stay within its operation's projected memory. Three open, mechanism-keyed findings (compressed storage buffers; previous block alive in multi-block reads; undeclared function temporaries) are matched by configuration + producing function + segment kind + ratio ceiling; two thirds of the budget run without a compressor where only the two narrower findings can match.",
@@ -17,19 +17,19 @@ CHECKS = {
    text="For generated programs under both optimiser settings and several reserved_mem values the budget is set just below, at and above the plan's own maximum projected memory; an over-budget plan must be refused with no executor entry, no store mutation and no new file (eager and lazy store forms included); a plan within budget must not get the memory error; the default optimiser must not turn a fitting plan into a non-fitting one; fused ops must report at least the memory of the ops they replace.",
    note="P is taken from the plan cubed itself finalizes under that budget (plans whose shape depends on the budget are re-probed at their own boundary).", ref="3/C04"),
  "C05": dict(level="exploration", technique="runtime monitoring: attributed store-level trace (who wrote which chunk key) + block-write hook on zarr.Array.__setitem__, judged against the chunk grid read back from stored metadata",
-   text="Every task of every generated plan runs one at a time under a harness executor that attributes each store write to its task; monitors check one writer task per stored chunk, whole-chunk write regions, and that every chunk of every produced array's grid was written.",
-   note="Trusts the tracer's patching of zarr LocalStore/MemoryStore and zarr.Array.__setitem__ to see every write (cross-checked: chunk sets == grid size on the unchanged tree). Store targets supplied by the user are covered by C11's workload.", ref="3/C05"),
+   text="Every task of every generated plan runs one at a time under a harness executor that attributes each store write to its task; monitors check one writer task per stored chunk, whole-chunk write regions, and that every chunk of every produced array's grid was written. Two further workloads: store/to_zarr into user-supplied targets (existing arrays of any chunking, sharded, regions), and direct regular/irregular rechunks under budgets that need two or more copy stages.",
+   note="Trusts the tracer's patching of zarr LocalStore/MemoryStore and zarr.Array.__setitem__ to see every write (cross-checked: chunk sets == grid size on the unchanged tree). User-supplied store targets reuse C11's call generator.", ref="3/C05"),
  "C06": dict(level="fault_enumeration", technique="runtime monitoring under adversarial schedules: reversed/shuffled task order, every single duplicated task at three positions, duplicate multisets, fresh-process task execution; oracle = stored content and results of the reference schedule",
    text="For each generated plan the schedule space {order} x {which task is repeated, where} is enumerated (exhaustively for plans <= 14 tasks, sampled above) on the real task functions; every produced stored array and every result must equal the reference schedule's, and rewrites of a chunk must carry identical bytes.",
    note="Tasks run sequentially in the harness executor (concurrency itself is C07's subject). Intermediate data is wiped between schedules.", ref="3/C06"),
  "C07": dict(level="exploration", technique="runtime monitoring: store-level event trace with timestamps under the real executors (threads, processes via sitecustomize-instrumented workers, single-threaded) with seeded write-latency injection; happens-before oracle over (call, return) times",
-   text="Real executors run generated DAGs under compute_arrays_in_parallel on/off, batch sizes and worker counts while every chunk set is delayed by a seeded latency at the store coroutine; no read of a produced array may be called before the first write of that chunk - or of any chunk of that array - returned, or before all arrays were created. Held on the interleavings actually produced (count reported); 'all interleavings' is restated as those observed.",
+   text="Real executors run generated DAGs under compute_arrays_in_parallel on/off, batch sizes and worker counts while every chunk set is delayed by a seeded latency at the store coroutine; no read of a produced array may be called before the first write of that chunk - or of any chunk of that array - returned, or before all arrays were created. Each shard also runs 'wide' plans whose operations have 1050-1500 tasks in flight at once with slow tail writes. Held on the interleavings actually produced (count reported); 'all interleavings' is restated as those observed.",
    note="Clock: time.monotonic in all processes. Interleavings not produced by the injected delays are not judged. Shown to fire (243 violations in one quick run) when topological generations are merged.", ref="3/C07"),
  "C08": dict(level="fault_enumeration", technique="runtime monitoring on virtual time: the real async_map_unordered driven by scripted futures (outcome and completion time per (input, submission), simultaneous completions in both handling orders); invariants on deliveries/submissions/raises; plus fault-injected retry wrapper and end-to-end storage faults",
-   text="All single-special-input scenarios over n in {1,2,3,10,11,12,13,25} x use_backups x batch sizes x original/backup outcomes are enumerated (pairs in thorough, random triples sampled); the scheduler must deliver each input once, never drop or double-deliver, raise only an input's own error when no twin succeeded or is pending, submit at most twice, never hang (virtual-time bound). Retry budget checked on the real thread pool wrapper and end to end with OSError injected at a chunk read.",
-   note="'Never hangs' is restated as bounded virtual time + the loop never idling with work outstanding. ProcessesExecutor configures no retries (documented in DESIGN.md), so the end-to-end budget is checked on ThreadsExecutor.", ref="3/C08"),
+   text="All single-special-input scenarios over n in {1,2,3,10,11,12,13,25} (sampled scenarios also use 1001-2600 inputs) x use_backups x batch sizes x original/backup outcomes are enumerated (pairs in thorough, random triples sampled); the scheduler must deliver each input once, never drop or double-deliver, raise only an input's own error when no twin succeeded or is pending, submit at most twice, never hang (virtual-time bound). Retry budget checked on the real thread pool wrapper and end to end with OSError injected at a chunk read.",
+   note="'Never hangs' is restated as bounded virtual time + the loop never idling with work outstanding. The end-to-end budget is checked on ThreadsExecutor and (since fix 4cf1bdb) ProcessesExecutor.", ref="3/C08"),
  "C09": dict(level="fault_enumeration", technique="runtime monitoring with injected crashes at every task boundary and every data-chunk write (store tracer raises), then compute(resume=True) on real executors under the store tracer and a recording callback; real os._exit crashes resumed from a fresh process are sampled",
-   text="For each small program every crash point at task and chunk-write granularity is enumerated (sampled above the cap); the resumed run must refuse up front or reproduce the uninterrupted values, must not delete or change any chunk file that existed after the crash, must not re-execute operations that had completed (except create-arrays / 0-d outputs) and must not skip incomplete ones.",
+   text="For each small program (40% of them saving their requested arrays, and sometimes an intermediate, to user paths with lazy store/to_zarr) every crash point at task and chunk-write granularity is enumerated (sampled above the cap); the resumed run must refuse up front or reproduce the uninterrupted values, must not delete or change any chunk file that existed after the crash, must not re-execute operations that had completed (except create-arrays / 0-d outputs) and must not skip incomplete ones.",
    note="Injected crashes are Python exceptions raised at the store boundary; true process death is exercised by the os._exit variant. Tasks are assumed deterministic (C06).", ref="3/C09"),
  "C10": dict(level="exploration", technique="runtime monitoring of API histories: a NumPy shadow of a pool of related lazy arrays is kept alongside random sequences of derive/compute/store/to_zarr/re-compute/config-change calls; after every step sampled members are computed and compared, and directory digests of inputs and of earlier store targets are re-checked",
    text="Histories exercise the real API in arbitrary order, in particular storing arrays that other pool members were derived from, lazily and eagerly, into new and existing targets, and computing with resume/optimisation/executor variations; held = every probe equalled the shadow and no input or earlier target changed, on the histories listed.",
